@@ -472,6 +472,12 @@ def _pcall(ctx, sym):
     x = ctx[lay]
     if mode == 'direct':
         return getattr(x, op)(ctx['e']) if op in P_BINARY else getattr(x, op)()
+    if mode == 'symself':
+        # two *different* symbolic operands that store the same blades as x: the key pattern (keys, keys) is the one that
+        # norms, inverses and sandwiches generate internally with one operand on both sides (x*~x)
+        alg = ctx['alg']
+        xs, ys = alg.multivector(keys=tuple(x.keys()), name='p'), alg.multivector(keys=tuple(x.keys()), name='q')
+        return getattr(xs, op)(ys)
     regs = ctx.setdefault('_pregs', {})
     if op not in regs:
         ns = {}
@@ -532,6 +538,11 @@ def pair_histories(tier):
                 if a != b:
                     out.append(((a, 'st2', mode), (b, 'st2', mode)))
                     out.append(((b, 'st1', mode), (a, 'st1', mode)))
+        if mode == 'direct':
+            for lay in ('x1', 'x2', 'x4'):
+                for a in ('gp', 'op', 'ip', 'cp', 'sw'):
+                    for b, bm in (('normsq', 'direct'), ('inv', 'direct'), ('sw', 'direct'), ('proj', 'direct'), ('normsq', 'reg')):
+                        out.append(((a, lay, 'symself'), (b, lay, bm)))
         # two different operators on the same operands
         for lay in (('x2', 'x5') if tier == 'thorough' else ('x2',)):
             for a in ops:
